@@ -39,8 +39,14 @@ def st_newargs(draw, node, args, cfg):
     switch indices / flags change only when cfg allows"""
     out = []
     k = node["k"]
+    pk = gfi_strat.param_kinds(node)
     for pos, (kind, a) in enumerate(zip(gfi.sig(node), args)):
-        if kind == "f":
+        if pk is not None:
+            if kind == "v":
+                out.append([draw(gfi_strat.st_value(pk[pos])) if draw(st.booleans()) else x for x in a])
+            else:
+                out.append(draw(gfi_strat.st_value(pk[pos])) if draw(st.booleans()) else a)
+        elif kind == "f":
             out.append(draw(gfi_strat.st_float()) if draw(st.booleans()) else a)
         elif kind in ("v", "lg"):
             out.append([draw(gfi_strat.st_float()) if draw(st.booleans()) else x for x in a])
